@@ -21,6 +21,8 @@ pub enum Op {
     Remove(u8),
     Rebalance,
     Route(u8),
+    /// route every shard id of the key space once
+    Sweep,
 }
 
 #[derive(Clone, Debug, Serialize, Deserialize)]
@@ -42,7 +44,7 @@ impl MNode {
 }
 
 const NODES: u8 = 5;
-const SHARDS: u8 = 6;
+const SHARDS: u8 = 250;
 const POLL_BUDGET: u32 = 64;
 
 fn node_id(n: u8) -> String {
@@ -126,8 +128,16 @@ pub fn exec(case: &Case) -> Outcome {
                     }
                     rebalances += 1;
                 }
-                Op::Route(s) => {
-                    let shard = format!("shard-{}", s % SHARDS);
+                Op::Route(_) | Op::Sweep => {
+                  let targets: Vec<u8> = match op {
+                      Op::Route(s) => vec![s % SHARDS],
+                      _ => {
+                          out.class("sweep-of-the-key-space");
+                          (0..SHARDS).collect()
+                      }
+                  };
+                  for s in targets {
+                    let shard = format!("shard-{}", s);
                     routes += 1;
                     // non-triviality: previously returned node is no longer eligible and no rebalance since
                     if let Some((prev, epoch)) = last.get(&shard) {
@@ -191,6 +201,7 @@ pub fn exec(case: &Case) -> Outcome {
                             out.class("route-err");
                         }
                     }
+                  }
                 }
             }
         }
@@ -209,7 +220,9 @@ fn op() -> impl Strategy<Value = Op> {
         2 => (n.clone(), prop_oneof![2 => 0u8..90, 3 => 93u8..97, 1 => Just(100u8)]).prop_map(|(n, l)| Op::SetLoad(n, l)),
         1 => n.prop_map(Op::Remove),
         1 => Just(Op::Rebalance),
-        8 => (0u8..SHARDS).prop_map(Op::Route),
+        6 => (0u8..6).prop_map(Op::Route),
+        2 => (0u8..SHARDS).prop_map(Op::Route),
+        1 => Just(Op::Sweep),
     ]
 }
 
@@ -222,7 +235,7 @@ pub fn def() -> PropDef {
     PropDef {
         id: "C19",
         level: "exploration",
-        rule: "stateful: histories of <=30 (thorough 60) ops from {register(node<5, type, status, load incl. 94/95), heartbeat, drain, set-load, remove, rebalance, route(shard<6)} for each of the three assignment strategies, against a reference model of the registry; every route_write runs under a 64-poll budget. Non-trivial = a shard was routed again after its assigned node had become ineligible/absent with no rebalance in between. Distinct = distinct canonical JSON of the history.",
+        rule: "stateful: histories of <=30 (thorough 60) ops from {register(node<5, type, status, load incl. 94/95), heartbeat, drain, set-load, remove, rebalance, route(shard<6, or any of 250 shard ids), sweep = route each of the 250 shard ids once (every position on the ring, incl. the wrap-around segment)} for each of the three assignment strategies, against a reference model of the registry; every route_write runs under a 64-poll budget. Non-trivial = a shard was routed again after its assigned node had become ineligible/absent with no rebalance in between. Distinct = distinct canonical JSON of the history.",
         assumptions: &[
             "tokio's cooperative budget makes a never-blocking async loop yield, so a poll-count budget detects non-termination deterministically",
             "single-threaded histories: no concurrent membership change during a route",
